@@ -413,6 +413,63 @@ def run(ctx: Context, rep) -> None:
     rep.ob("C14.config", n_rr >= 2, loc=conc.loc(), where="interfaces",
            construct=f"{n_rr} interleaving call(s)",
            message="interleaving calls of the interfaces inspected")
+    # the tf.data interleave width of the TFRecord pipeline: the argument
+    # handed to read_and_decode is bounded by file_parallelism (locals with a
+    # single definition are read as their value), and read_and_decode hands
+    # its parameter on unchanged
+    tfd_ = ctx.fn(C.INTERFACES[0])
+
+    def expand_(fn__, e, depth=0):
+        if isinstance(e, ast.Name) and e.id != PARAM_ and depth < 4:
+            defs = [n for n in fn__.body_nodes() if (
+                isinstance(n, ast.Assign) and any(
+                    isinstance(t, ast.Name) and t.id == e.id
+                    for t in n.targets)) or (
+                        isinstance(n, ast.AnnAssign) and n.value is not None
+                        and isinstance(n.target, ast.Name) and
+                        n.target.id == e.id)]
+            if len(defs) == 1:
+                return expand_(fn__, defs[0].value, depth + 1)
+            return e
+
+        class _T(ast.NodeTransformer):
+            def visit_Name(self, n):
+                return expand_(fn__, n, depth + 1) if n.id != PARAM_ and \
+                    depth < 4 else n
+        import copy as _copy
+        return _T().visit(_copy.deepcopy(e)) if not isinstance(
+            e, ast.Name) else e
+
+    def bounded_or_none(e):
+        # None lets tf.data choose (number of cores): not data dependent
+        if isinstance(e, ast.Constant) and e.value is None:
+            return True
+        if isinstance(e, ast.IfExp):
+            return bounded_or_none(e.body) and bounded_or_none(e.orelse)
+        return bounded(e)
+
+    n_rd = 0
+    for c_ in tfd_.calls():
+        f__ = c_.func
+        if not (isinstance(f__, ast.Attribute) and
+                f__.attr == "read_and_decode"):
+            continue
+        for kwname in ("cycle_length", "num_parallel_calls"):
+            a_ = ctx.arg(c_, {"cycle_length": 1,
+                              "num_parallel_calls": 2}[kwname], kwname)
+            if a_ is None:
+                continue
+            n_rd += 1
+            ex_ = expand_(tfd_, a_)
+            rep.ob("C14.config", bounded_or_none(ex_), loc=tfd_.loc(c_),
+                   where=tfd_.qualname,
+                   construct=f"read_and_decode({kwname}={short(ex_, 60)})",
+                   message="the number of TFRecord files read at once is "
+                   "bounded by the caller's file_parallelism (not by the "
+                   "number of shards)")
+    if n_rd < 2:
+        raise AnalysisError("C14.config: read_and_decode call of as_tfdataset "
+                            "not found")
     n_par = 0
     for fn_ in ctx.repo.all_functions():
         if isinstance(fn_.node, ast.Lambda) or PARAM_ not in [
